@@ -1,5 +1,347 @@
+/-
+  C11 — Linear and cubic-spline interpolation reproduce and extend data.
+
+  Property theorems about the executable model `TfelVerif.C11.Model` (the transliteration of
+  include/TFEL/Math/LinearInterpolation.ixx and include/TFEL/Math/CubicSpline.ixx that
+  checks/C11.py compares bit for bit with the real templates on `double`), over an arbitrary
+  linearly ordered field `K`, for tables of ANY size `n` (inductions on the loops; no enumeration).
+
+  Vocabulary (Lemmas.lean):
+    `StrictInc x n`        the first `n` abscissae are strictly increasing;
+    `Mono x n`             … non-decreasing (enough for the search and the integral laws);
+    `slope x y i`          `(y (i+1) - y i) / (x (i+1) - x i)`;
+    `pieceVal/pieceDer/pieceD2 x y d i t`   the cubic of the interval `i` and the first and second
+                           derivatives *as written in the code*, at the offset `t` from `x i`;
+    `TriSystem c b r n s`  `s` solves the symmetric tridiagonal system (diagonal `b`, off-diagonals `c`);
+    `NaturalC2 x y d n`    zero second derivative at both ends, continuous second derivative at
+                           every interior node;
+    `prim x y d n t`       the primitive of the linearly extrapolated spline vanishing at `x 0`
+                           (`extPrim`, `localPrim`, `nodeSum` are its pieces).
+  "Derivative" is the formal one: `f (t+e) = f t + e * f' t + e*e * r` with an explicit
+  polynomial remainder `r` (exact Taylor expansion), piece by piece.
+
+  NOT proved here (stated for the record):
+    * the analytic reading over ℝ, `computeIntegral a b = ∫ x in a..b, spline x` with the interval
+      integral of Mathlib: the theorems below give the algebraic content (a primitive which is
+      piecewise polynomial, continuous at the nodes, with formal derivative the interpolant), the
+      fundamental theorem of calculus is not invoked;
+    * uniqueness of the natural spline (the pivots are proved positive, hence the system has a
+      unique solution, but this is not stated);
+    * anything about rounding: `Float` only appears in the bit-exact correspondence.
+-/
 import TfelVerif.C11.Lemmas
+
+set_option linter.unusedSectionVars false
+set_option linter.unusedVariables false
+
 namespace TfelVerif.C11
+
 variable {K : Type} [Field K] [LinearOrder K] [IsStrictOrderedRing K]
-theorem stub_partial (a : K) : a = a := rfl
+
+/-! ## Linear interpolation -/
+
+/-- `findIndex` : for `x 0 < a < x (n-1)` the loop returns the unique `i` with `x i < a ≤ x (i+1)`. -/
+theorem findIndex_characterisation {x : Vec K} {n : Nat} (hx : StrictInc x n) {a : K}
+    (h0 : x.get 0 < a) (h1 : a < x.get (n - 1)) :
+    findIndex x n a + 1 < n ∧ x.get (findIndex x n a) < a ∧ a ≤ x.get (findIndex x n a + 1) ∧
+      ∀ i, i + 1 < n → x.get i < a → a ≤ x.get (i + 1) → findIndex x n a = i := by
+  obtain ⟨r1, r2, r3⟩ := findIndex_interior hx h0 h1
+  exact ⟨r1, r2, r3, fun i hi ha0 ha1 => findIndex_unique hx h0 h1 hi ha0 ha1⟩
+
+/-- the loop of `findIndex` in general (no ordering assumed) : it stops at the first `i` with
+`a ≤ x (i+1)`, or at the last index. -/
+theorem findIndex_loop (x : Vec K) {n : Nat} (hn : 1 ≤ n) (a : K) :
+    findIndex x n a < n ∧ (∀ j, j < findIndex x n a → x.get (j + 1) < a) ∧
+      (findIndex x n a + 1 = n ∨ a ≤ x.get (findIndex x n a + 1)) := by
+  obtain ⟨-, r2, r3, r4⟩ := findIndexFrom_spec x n a n 0 (by omega) (by omega) (by intro j hj; omega)
+  exact ⟨r2, r3, r4⟩
+
+/-- affine on each closed interval `[x i, x (i+1)]`, extrapolating or not.  Two consecutive
+intervals share the node `x (i+1)`, where both formulas apply: the interpolant is continuous. -/
+theorem linear_affine_on_each_interval {x y : Vec K} {n : Nat} (hx : StrictInc x n) (e : Bool)
+    {i : Nat} (hi : i + 1 < n) {a : K} (ha0 : x.get i ≤ a) (ha1 : a ≤ x.get (i + 1)) :
+    (linear e x y n a).1 = y.get i + slope x y i * (a - x.get i) :=
+  linear_on_interval hx e hi ha0 ha1
+
+/-- the value returned at a node is the tabulated value -/
+theorem linear_reproduces_nodes {x y : Vec K} {n : Nat} (hx : StrictInc x n) (e : Bool) {i : Nat}
+    (hi : i < n) : (linear e x y n (x.get i)).1 = y.get i := by
+  by_cases hn : n = 1
+  · subst hn
+    have : i = 0 := by omega
+    subst this
+    rw [linear_one]
+  · by_cases h : i + 1 < n
+    · rw [linear_on_interval hx e h (le_refl _) (le_of_lt (hx i h))]
+      simp
+    · obtain ⟨j, rfl⟩ : ∃ j, i = j + 1 := ⟨i - 1, by omega⟩
+      rw [linear_on_interval hx e hi (le_of_lt (hx j hi)) (le_refl _)]
+      exact slope_step hx hi
+
+/-- strictly inside the table the returned derivative is the slope of the piece containing `a`
+(the piece on the left when `a` is a node) -/
+theorem linear_derivative_is_slope {x y : Vec K} {n : Nat} (hx : StrictInc x n) (e : Bool) {a : K}
+    (h0 : x.get 0 < a) (h1 : a < x.get (n - 1)) {i : Nat} (hi : i + 1 < n)
+    (ha0 : x.get i < a) (ha1 : a ≤ x.get (i + 1)) :
+    linear e x y n a = (y.get i + slope x y i * (a - x.get i), slope x y i) := by
+  have hn : n ≠ 1 := by omega
+  rw [linear_mid e x y hn h0 h1, findIndex_unique hx h0 h1 hi ha0 ha1, linPiece_eq]
+
+/-- left of the table (first node included) : affine continuation of the first piece when
+extrapolating, with its slope as derivative; otherwise the first value and a null derivative -/
+theorem linear_left_of_table {x y : Vec K} {n : Nat} (hn : 2 ≤ n) {a : K} (ha : a ≤ x.get 0) :
+    linear true x y n a = (y.get 0 + slope x y 0 * (a - x.get 0), slope x y 0) ∧
+      linear false x y n a = (y.get 0, 0) := by
+  have h : ¬ x.get 0 < a := not_lt.mpr ha
+  rw [linear_left true x y (by omega) h, linear_left false x y (by omega) h, linPiece_eq]
+  simp
+
+/-- right of the table (last node included) : affine continuation of the last piece when
+extrapolating, with its slope as derivative; otherwise the last value and a null derivative -/
+theorem linear_right_of_table {x y : Vec K} {n : Nat} (hx : StrictInc x n) (hn : 2 ≤ n) {a : K}
+    (ha : x.get (n - 1) ≤ a) :
+    linear true x y n a =
+        (y.get (n - 1) + slope x y (n - 2) * (a - x.get (n - 1)), slope x y (n - 2)) ∧
+      linear false x y n a = (y.get (n - 1), 0) := by
+  have h0 : x.get 0 < a := lt_of_lt_of_le (hx.lt (by omega : 0 < n - 1) (by omega)) ha
+  have h : ¬ a < x.get (n - 1) := not_lt.mpr ha
+  rw [linear_right true x y (by omega) h0 h, linear_right false x y (by omega) h0 h, linPiece_eq]
+  refine ⟨?_, by simp⟩
+  have hs := slope_step (y := y) hx (by omega : n - 2 + 1 < n)
+  have e1 : n - 2 + 1 = n - 1 := by omega
+  rw [e1] at hs
+  simp only [if_true, Prod.mk.injEq, and_true]
+  rw [← hs]
+  ring
+
+/-- a single point : constant interpolant, null derivative -/
+theorem linear_single_point (e : Bool) (x y : Vec K) (a : K) : linear e x y 1 a = (y.get 0, 0) :=
+  linear_one e x y a
+
+/-! ## Cubic spline : search, local cubic, extrapolation (ANY slopes `d`) -/
+
+/-- `lower_bound` returns the index of the first node `≥ v` (`n` when there is none) -/
+theorem lower_bound_characterisation {x : Vec K} {n : Nat} (hx : Mono x n) (v : K) :
+    lowerBound x n v ≤ n ∧ (∀ j, j < lowerBound x n v → x.get j < v) ∧
+      (∀ j, lowerBound x n v ≤ j → j < n → v ≤ x.get j) :=
+  lowerBound_spec hx v
+
+/-- the spline returns the tabulated value at every node, whatever the slopes -/
+theorem spline_reproduces_nodes {x : Vec K} {n : Nat} (hx : StrictInc x n) (e : Bool) (y d : Vec K)
+    {i : Nat} (hi : i < n) : (splineEval e x y d n (x.get i)).1 = y.get i :=
+  splineEval_node hx e y d hi
+
+/-- for `x i < t ≤ x (i+1)` the three entry points evaluate the cubic piece `i` and its first and
+second derivatives -/
+theorem spline_piecewise_cubic {x : Vec K} {n : Nat} (hx : StrictInc x n) (e : Bool) (y d : Vec K)
+    {i : Nat} (hi : i + 1 < n) {t : K} (h0 : x.get i < t) (h1 : t ≤ x.get (i + 1)) :
+    splineEval e x y d n t = (pieceVal x y d i (t - x.get i), pieceDer x y d i (t - x.get i)) ∧
+      splineEval3 x y d n t =
+        (pieceVal x y d i (t - x.get i), pieceDer x y d i (t - x.get i), pieceD2 x y d i (t - x.get i)) :=
+  ⟨splineEval_piece hx e y d hi h0 h1, splineEval3_piece hx y d hi h0 h1⟩
+
+/-- Hermite form : each cubic piece takes the tabulated values and the slopes `d` at both ends,
+for ANY slopes — so consecutive pieces meet with the same value and the same first derivative
+(C¹ at every interior node) -/
+theorem spline_hermite_C1 {x : Vec K} {n : Nat} (hx : StrictInc x n) (y d : Vec K) {i : Nat}
+    (hi : i + 1 < n) :
+    pieceVal x y d i 0 = y.get i ∧ pieceDer x y d i 0 = d.get i ∧
+      pieceVal x y d i (x.get (i + 1) - x.get i) = y.get (i + 1) ∧
+      pieceDer x y d i (x.get (i + 1) - x.get i) = d.get (i + 1) :=
+  ⟨pieceVal_left x y d i, pieceDer_left x y d i, piece_join_val hx y d hi, piece_join_der hx y d hi⟩
+
+/-- the same, on the functions returned by the code : on the CLOSED interval `[x i, x (i+1)]`
+the value (extrapolating or not) and, when extrapolating, the derivative are those of the
+piece `i`; at a shared node both neighbouring pieces apply, hence continuity of both -/
+theorem spline_C1_on_closed_intervals {x : Vec K} {n : Nat} (hx : StrictInc x n) (e : Bool)
+    (y d : Vec K) {i : Nat} (hi : i + 1 < n) {t : K} (h0 : x.get i ≤ t) (h1 : t ≤ x.get (i + 1)) :
+    (splineEval e x y d n t).1 = pieceVal x y d i (t - x.get i) ∧
+      (splineEval true x y d n t).2 = pieceDer x y d i (t - x.get i) :=
+  ⟨splineEval_on_interval hx e y d hi h0 h1, splineEval_der_on_interval hx y d hi h0 h1⟩
+
+/-- the returned first (second) derivative is the formal derivative of the returned value (first
+derivative) : exact Taylor expansions of the cubic piece -/
+theorem spline_derivatives_are_derivatives (x y d : Vec K) (i : Nat) (t e : K) :
+    pieceVal x y d i (t + e) = pieceVal x y d i t + e * pieceDer x y d i t +
+        e * e * ((coef x y d i).1 + (3 * t + e) * (coef x y d i).2) ∧
+      pieceDer x y d i (t + e) = pieceDer x y d i t + e * pieceD2 x y d i t +
+        e * e * (3 * (coef x y d i).2) :=
+  ⟨pieceVal_taylor x y d i t e, pieceDer_taylor x y d i t e⟩
+
+/-- outside the table : linear continuation with the end slope (C¹ with the end pieces, whose
+derivative at the end node is that slope) when extrapolating, clamping with a null derivative
+otherwise -/
+theorem spline_outside_table {x : Vec K} {n : Nat} (hx : StrictInc x n) (hn : 2 ≤ n) (y d : Vec K)
+    {t : K} :
+    (t ≤ x.get 0 →
+      splineEval true x y d n t = (y.get 0 + (t - x.get 0) * d.get 0, d.get 0) ∧
+      splineEval false x y d n t = (y.get 0, 0)) ∧
+    (x.get (n - 1) < t →
+      splineEval true x y d n t = (y.get (n - 1) + (t - x.get (n - 1)) * d.get (n - 1), d.get (n - 1)) ∧
+      splineEval false x y d n t = (y.get (n - 1), 0)) := by
+  constructor
+  · intro ht
+    rw [splineEval_left hx hn true y d ht, splineEval_left hx hn false y d ht]
+    simp
+  · intro ht
+    rw [splineEval_right hx hn true y d ht, splineEval_right hx hn false y d ht]
+    simp
+
+/-- a single point : constant interpolant, null derivative -/
+theorem spline_single_point (e : Bool) (x y d : Vec K) (t : K) :
+    splineEval e x y d 1 t = (y.get 0, 0) :=
+  splineEval_one e x y d t
+
+/-! ## Cubic spline : construction of the slopes -/
+
+/-- Thomas algorithm (`solveTridiagonalLinearSystem`) : whenever no pivot test fires, the two
+sweeps return an exact solution of the tridiagonal system -/
+theorem thomas_solves_system {prec : K} (hprec : 0 < prec) (c b r : Vec K) {n : Nat} (hn : 2 ≤ n)
+    {s : Vec K} (h : thomas prec c b r n = some s) : TriSystem c b r n s :=
+  thomas_solves hprec c b r hn h
+
+/-- the system assembled by `buildInterpolation` is, row by row, "zero second derivative at the
+first node / continuous second derivative at each interior node / zero second derivative at the
+last node" -/
+theorem system_is_natural_C2 {x y : Vec K} {n : Nat} (hx : StrictInc x n) (hn : 2 ≤ n) (d : Vec K) :
+    TriSystem (upperDiag x) (mainDiag x (n - 1)) (rhsVec x y (n - 1)) n d ↔ NaturalC2 x y d n :=
+  natural_iff_system hx hn d
+
+/-- `setCollocationPoints` : when it succeeds the table is strictly increasing and the slopes it
+stores make the spline C² with natural end conditions (one point: null slope) -/
+theorem build_gives_natural_spline {prec : K} (hprec : 0 < prec) {x y : Vec K} {n : Nat} {d : Vec K}
+    (h : build prec x y n = Build.ok d) :
+    n ≠ 0 ∧ StrictInc x n ∧ (n = 1 → ∀ i, d.get i = 0) ∧ (2 ≤ n → NaturalC2 x y d n) :=
+  build_ok hprec h
+
+/-- `setCollocationPoints` succeeds on every strictly increasing table : all the pivots are at
+least `3/2` of an inverse interval length, so no test fires as long as the threshold `prec`
+(`100 * DBL_MIN` in the code) does not exceed the inverse interval lengths -/
+theorem build_succeeds {prec : K} {x y : Vec K} {n : Nat} (hx : StrictInc x n) (hn : 1 ≤ n)
+    (hprec : ∀ i, i + 1 < n → prec ≤ hInv x i) : ∃ d, build prec x y n = Build.ok d :=
+  build_total hx hn hprec
+
+/-- tables that are empty or not strictly increasing are rejected -/
+theorem build_rejects_bad_tables (prec : K) (x y : Vec K) {n : Nat}
+    (h : n = 0 ∨ ¬ StrictInc x n) : ∀ d, build prec x y n ≠ Build.ok d := by
+  intro d hd
+  unfold build at hd
+  rcases h with h | h
+  · rw [if_pos h] at hd; cases hd
+  · by_cases h0 : n = 0
+    · rw [if_pos h0] at hd; cases hd
+    · rw [if_neg h0] at hd
+      have : ordered x (n - 1) = false := by
+        by_contra hc
+        have := (ordered_iff x (n - 1)).mp (by simpa using hc)
+        rw [Nat.sub_add_cancel (Nat.pos_of_ne_zero h0)] at this
+        exact h this
+      rw [this] at hd
+      simp at hd
+
+/-! ## Cubic spline : integral and mean value (ANY slopes `d`) -/
+
+/-- `computeIntegral a b` is `prim b - prim a`, whatever the order of the bounds -/
+theorem integral_is_primitive_difference {x : Vec K} {n : Nat} (hx : Mono x n) (y d : Vec K) (a b : K) :
+    integral x y d n a b = prim x y d n b - prim x y d n a :=
+  integral_eq_prim hx y d a b
+
+/-- `I(a,a) = 0` -/
+theorem integral_self {x : Vec K} {n : Nat} (hx : Mono x n) (y d : Vec K) (a : K) :
+    integral x y d n a a = 0 := by
+  rw [integral_eq_prim hx]; ring
+
+/-- `I(b,a) = -I(a,b)` -/
+theorem integral_antisymmetric {x : Vec K} {n : Nat} (hx : Mono x n) (y d : Vec K) (a b : K) :
+    integral x y d n b a = -(integral x y d n a b) := by
+  rw [integral_eq_prim hx, integral_eq_prim hx]; ring
+
+/-- `I(a,b) + I(b,c) = I(a,c)` for all `a b c`, in any order, inside or outside the table -/
+theorem integral_additive {x : Vec K} {n : Nat} (hx : Mono x n) (y d : Vec K) (a b c : K) :
+    integral x y d n a b + integral x y d n b c = integral x y d n a c := by
+  rw [integral_eq_prim hx, integral_eq_prim hx, integral_eq_prim hx]; ring
+
+/-- the primitive, cell by cell (closed cells : at a shared node both formulas apply, so it is
+continuous), vanishing at `x 0` -/
+theorem primitive_cells {x : Vec K} {n : Nat} (hx : StrictInc x n) (hn : 2 ≤ n) (y d : Vec K) (t : K) :
+    (t ≤ x.get 0 → prim x y d n t = extPrim (y.get 0) (d.get 0) (t - x.get 0)) ∧
+    (∀ i, i + 1 < n → x.get i ≤ t → t ≤ x.get (i + 1) →
+      prim x y d n t = nodeSum x y d i + localPrim x y d i (t - x.get i)) ∧
+    (x.get (n - 1) ≤ t →
+      prim x y d n t =
+        nodeSum x y d (n - 1) + extPrim (y.get (n - 1)) (d.get (n - 1)) (t - x.get (n - 1))) ∧
+    prim x y d n (x.get 0) = 0 :=
+  ⟨fun h => prim_left hx hn y d h, fun i hi h0 h1 => prim_piece hx y d hi h0 h1,
+   fun h => prim_right hx hn y d h, by rw [prim_node hx hn y d (by omega)]; rfl⟩
+
+/-- derivative of `computeIntegral` with respect to its upper bound : when `t` and `t + e` lie in
+the same closed cell (left of the table, an interval `[x i, x (i+1)]`, right of the table),
+`I(a, t+e) = I(a, t) + e * spline(t) + e² * r` where `spline` is the (extrapolated) interpolant
+returned by `getValue` and `r` an explicit polynomial : the integrand is the interpolant,
+extrapolated parts included -/
+theorem integral_derivative_is_interpolant {x : Vec K} {n : Nat} (hx : StrictInc x n) (hn : 2 ≤ n)
+    (y d : Vec K) (a t e : K) :
+    (t ≤ x.get 0 → t + e ≤ x.get 0 →
+      integral x y d n a (t + e) = integral x y d n a t + e * (splineEval true x y d n t).1 +
+        e * e * (half * d.get 0)) ∧
+    (∀ i, i + 1 < n → x.get i ≤ t → t ≤ x.get (i + 1) → x.get i ≤ t + e → t + e ≤ x.get (i + 1) →
+      integral x y d n a (t + e) = integral x y d n a t + e * (splineEval true x y d n t).1 +
+        e * e * ((6 * d.get i + 12 * (coef x y d i).1 * (t - x.get i) +
+          18 * (coef x y d i).2 * ((t - x.get i) * (t - x.get i)) +
+          (4 * (coef x y d i).1 + 12 * (coef x y d i).2 * (t - x.get i)) * e +
+          3 * (coef x y d i).2 * (e * e)) / 12)) ∧
+    (x.get (n - 1) < t → x.get (n - 1) < t + e →
+      integral x y d n a (t + e) = integral x y d n a t + e * (splineEval true x y d n t).1 +
+        e * e * (half * d.get (n - 1))) := by
+  have hm := hx.mono
+  refine ⟨?_, ?_, ?_⟩
+  · intro h1 h2
+    rw [integral_eq_prim hm, integral_eq_prim hm, prim_left hx hn y d h1, prim_left hx hn y d h2,
+      splineEval_left hx hn true y d h1, show t + e - x.get 0 = (t - x.get 0) + e by ring,
+      extPrim_taylor]
+    simp only [if_true]
+    ring
+  · intro i hi h1 h2 h3 h4
+    rw [integral_eq_prim hm, integral_eq_prim hm, prim_piece hx y d hi h1 h2,
+      prim_piece hx y d hi h3 h4, splineEval_on_interval hx true y d hi h1 h2,
+      show t + e - x.get i = (t - x.get i) + e by ring, localPrim_taylor]
+    ring
+  · intro h1 h2
+    rw [integral_eq_prim hm, integral_eq_prim hm, prim_right hx hn y d (le_of_lt h1),
+      prim_right hx hn y d (le_of_lt h2), splineEval_right hx hn true y d h1,
+      show t + e - x.get (n - 1) = (t - x.get (n - 1)) + e by ring, extPrim_taylor]
+    simp only [if_true]
+    ring
+
+/-- one point : the integral of the constant `y 0` -/
+theorem integral_single_point (x y d : Vec K) (a b : K) :
+    integral x y d 1 a b = y.get 0 * (b - a) := by
+  simp [integral]
+
+/-- `computeMeanValue a b = computeIntegral a b / (b - a)` -/
+theorem meanValue_is_integral_over_length (x y d : Vec K) (n : Nat) (a b : K) :
+    meanValue x y d n a b = integral x y d n a b / (b - a) := rfl
+
+/-! ## Non-vacuity : the hypotheses are satisfiable -/
+
+/-- the table `x i = i` is strictly increasing (any size) … -/
+example (n : Nat) : StrictInc (Vec.mk (fun i => (i : K)) ()) n := by
+  intro i _
+  show (i : K) < ((i + 1 : Nat) : K)
+  exact_mod_cast Nat.lt_succ_self i
+
+/-- … its inverse interval lengths are 1, so `setCollocationPoints` succeeds for any threshold
+`0 < prec ≤ 1` and `build_gives_natural_spline` applies to its result -/
+example (y : Vec K) (n : Nat) (hn : 1 ≤ n) :
+    ∃ d, build (1 / 2 : K) (Vec.mk (fun i => (i : K)) ()) y n = Build.ok d := by
+  apply build_succeeds _ hn
+  · intro i _
+    have : hInv (Vec.mk (fun i => (i : K)) ()) i = 1 := by
+      simp [hInv]
+    rw [this]
+    norm_num
+  · intro i _
+    show (i : K) < ((i + 1 : Nat) : K)
+    exact_mod_cast Nat.lt_succ_self i
+
 end TfelVerif.C11
